@@ -7,12 +7,13 @@
      - canon, the canonical chain, is a parent-linked run of blocks of U            [chain_ok, incl];
      - "all observers agree on the eventual tip": once every block has arrived, the head of the hub is
        the last block of canon                                                       [eventual_tip];
-     - "all observers agree on the final chain", the part the file-to-live switch needs: whenever the hub
-       is ready, its retained canonical chain holds no sibling of a block that is in the merged files - at
-       a number where both the files and the hub's chain have a block, it is the same block [files_agree].
-       (Merged files hold final blocks only; the hypothesis says the hub never contradicts them.  It is
-       implied by "every merged block is at or below the hub's LIB whenever the hub is ready" together with
-       eventual_tip.  Without it the property is false in the model: see C07_files_agree_needed.)
+     Number mode and cursor mode need nothing more: since the fix "join on identity" (JoiningSource asks the hub
+     through SourceFromBlockRef; Model/Joining.file_phase: `same`) the join at the file block b happens only when
+     the hub's canonical block of that height is b itself.  BEFORE that fix the join was made on the block NUMBER and
+     the property needed one more hypothesis, files_agree (whenever the hub is ready its retained chain holds no
+     sibling of a merged block), and was false without it: Spec/C07_Unfixed_Spec.v keeps the old join and the
+     counterexample (C07_join_by_number_refuted), found by this proof and confirmed on the real code.
+     Target-cursor mode (the join still asks "through the cursor" for a number) keeps files_on_hub / target_on_chain.
 
    The schedule (pauses), the fuel, the hub's retention, the position of the hub window are arbitrary.
 
@@ -42,7 +43,8 @@ Definition eventual_tip (c : jcfg) (w : world) (canon : list block) : Prop :=
   forall k hd, w_rest (world_after c k w) = [] ->
     last_sent (h_f (w_hub (world_after c k w))) = Some hd -> exists pre, canon = pre ++ [hd].
 
-(* the ready hub's retained canonical chain never holds a sibling of a merged block *)
+(* the ready hub's retained canonical chain never holds a sibling of a merged block (the hypothesis the join by
+   NUMBER needed: Spec/C07_Unfixed_Spec.v; no theorem about the fixed model uses it) *)
 Definition files_agree (c : jcfg) (w : world) (merged : list block) : Prop :=
   forall k hd sg x b,
     h_ready (w_hub (world_after c k w)) = true ->
@@ -71,7 +73,7 @@ Definition C07_seamless_num : Prop :=
     hub_of_universe U c w ->
     chain_ok canon -> incl canon U ->
     let merged := filter (fun b => bnum b <? merged_end) canon in
-    eventual_tip c w canon -> files_agree c w merged ->
+    eventual_tip c w canon ->
     j_mode c = 0 -> j_filter c = 0 -> j_stop c = 0 ->
     0 < j_bundle c -> Forall (fun b => bnum b < file_bound) merged ->
     let res := stream_run c w ps merged_end merged forked in
@@ -108,7 +110,7 @@ Definition C07_seamless_cursor_files : Prop :=
     hub_of_universe U c w ->
     chain_ok canon -> incl canon U ->
     let merged := filter (fun b => bnum b <? merged_end) canon in
-    eventual_tip c w canon -> files_agree c w merged ->
+    eventual_tip c w canon ->
     j_mode c = 1 -> j_cursor c = Some cu -> j_filter c = 0 -> j_stop c = 0 ->
     0 < j_bundle c -> Forall (fun b => bnum b < file_bound) merged ->
     (h_ready (w_hub w) = true -> forall evs, blocks_from_cursor (h_f (w_hub w)) cu <> BOk evs) ->
@@ -121,27 +123,11 @@ Definition C07_seamless_cursor_files : Prop :=
                   rev (cs_stack c') = above (rn (cu_lib cu)) merged \/
                   exists r1 rest1, rest = r1 :: rest1 /\ from_num (bnum r1) (rev (cs_stack c')) = rest).
 
-(* ------------------------------------------------------------------ files_agree cannot be dropped *)
-
-(* Every hypothesis of C07_seamless_num except files_agree, and a delivered sequence that breaks the discipline:
-   the merged files hold block 14 while the hub (LIB 13) sits on the fork 13 <- 114 <- 115 and becomes ready only
-   after block 14 has been delivered from the files; JoiningSource asks the hub for "block NUMBER 15" and gets the
-   forked 115: delivered are ... 14, New 115 (parent 114 never delivered), Undo 115, Undo 114, New 14 (a second
-   time), ...  The join is by number, not by block id. *)
-Definition C07_files_agree_needed : Prop :=
-  exists (U : list block) (c : jcfg) (w : world) (ps : list (N * N)) (merged_end : N) (canon forked : list block),
-    wf_b U = true /\ lib_ok_b LNone U = true /\ hub_of_universe U c w /\
-    chain_ok canon /\ incl canon U /\
-    eventual_tip c w canon /\
-    j_mode c = 0 /\ j_filter c = 0 /\ j_stop c = 0 /\ 0 < j_bundle c /\
-    Forall (fun b => bnum b < file_bound) (filter (fun b => bnum b <? merged_end) canon) /\
-    (exists b, In b canon /\ bnum b = run_start c w) /\
-    cons_fold_aside cons0 (map as_new (fst (stream_run c w ps merged_end (filter (fun b => bnum b <? merged_end) canon) forked))) = None.
-
-(* ------------------------------------------------------------------ a more familiar form of files_agree *)
+(* ------------------------------------------------------------------ files_agree (needed before the fix only) and files_on_hub from finality *)
 
 (* "merged files hold final blocks only, for the hub too": whenever the hub is ready every merged block is at or
-   below its LIB.  Together with eventual_tip this implies files_agree (C07_files_final_agree). *)
+   below its LIB.  Together with eventual_tip this implies files_agree (C07_files_final_agree) and files_on_hub
+   (C07_files_final_on_hub, the hypothesis of target-cursor mode). *)
 Definition files_final (c : jcfg) (w : world) (merged : list block) : Prop :=
   forall k b, h_ready (w_hub (world_after c k w)) = true -> In b merged ->
     bnum b <= rn (libref (db (h_f (w_hub (world_after c k w))))).
@@ -190,7 +176,7 @@ Definition C07_seamless_cursor : Prop :=
     hub_of_universe U c w ->
     chain_ok canon -> incl canon U ->
     let merged := filter (fun b => bnum b <? merged_end) canon in
-    eventual_tip c w canon -> files_agree c w merged ->
+    eventual_tip c w canon ->
     j_mode c = 1 -> j_cursor c = Some cu -> j_filter c = 0 -> j_stop c = 0 ->
     0 < j_bundle c -> Forall (fun b => bnum b < file_bound) merged ->
     from_num (rn (cu_lib cu)) canon = L :: rest -> bref L = cu_lib cu ->
